@@ -158,8 +158,29 @@ func runScenario(sc scenario) (outcome, error) {
 			return o, &culprit{past[i], fmt.Errorf("%v (observed during the idle period after the scenario)", e)}
 		}
 	}
+	// not one scenario alone: an earlier scenario may have left state behind that makes this
+	// one fatal (history). Try "earlier scenario, then this one" as a single scenario.
+	if len(sc.Conns) > 0 {
+		for i, tried := len(past)-1, 0; i >= 0 && tried < 15; i-- {
+			if len(past[i].Conns) == 0 {
+				continue
+			}
+			tried++
+			pair := scenario{Kind: "history", Note: past[i].Note + sc.Note}
+			pair.Conns = append(append([]connCase{}, past[i].Conns...), sc.Conns...)
+			pair.Order = append([]int{}, past[i].Order...)
+			for _, x := range sc.Order {
+				pair.Order = append(pair.Order, x+len(past[i].Conns))
+			}
+			dropChild()
+			if _, e := runOnce(pair); e != nil && !isInfra(e) && !strings.HasPrefix(e.Error(), "inconclusive:") {
+				dropChild()
+				return o, &culprit{pair, e}
+			}
+		}
+	}
 	dropChild()
-	vlib.Open(prop).Flaky("failure not attributable to a single scenario on a fresh process: " + head(err.Error(), 1800))
+	vlib.Open(prop).Flaky("failure not attributable to a single scenario (or a pair) on a fresh process: " + head(err.Error(), 1800))
 	return o, nil
 }
 
